@@ -275,7 +275,14 @@ static void gen_c02(uint64_t seed, uint64_t run, const std::string& tier, Plan& 
       Op& op = g.add("Parse"); op.a.push_back(g.r.chance(2, 3) ? (int64_t)(g.r.below(2) * 3 + g.r.below(3)) : g.slot()); op.s.push_back("");
       std::string t;
       unsigned tm = (unsigned)g.r.below(12);
-      if (tm < 3) t = g.text_valid(4, 70);
+      if (g.r.chance(1, 1500)) {   // one string (or key) of 1..3 MiB with a few escapes: far beyond the default chunk capacity
+        size_t len = (size_t)g.r.range(1 << 20, 3 << 20);
+        std::string body(len, 'x');
+        for (int q = 0; q < 6; q++) { size_t at = (size_t)g.r.below(len - 8); body.replace(at, 2, q % 2 ? "\\n" : "\\\""); }
+        t = g.r.chance(1, 3) ? "{\"" + body + "\":1}" : "[\"" + body + "\",2]";
+        if (g.r.chance(1, 4)) t.resize(t.size() - 3);   // truncated
+      }
+      else if (tm < 3) t = g.text_valid(4, 70);
       else if (tm < 6) t = g.mutate(g.text_valid(3, 8));
       else if (tm < 8) t = g.nest_text();
       else if (tm < 9 && !last.empty()) t = last.substr(0, g.r.below(last.size() + 1));
